@@ -33,8 +33,15 @@ Definition open_as_container (f : list N) : res (list pack_ref) :=
       match located with
       | Err e => Err e
       | Ok (h, origin) =>
-          if kind_eqb (ph_kind h) KContainer then run_n n f (container_new_p origin)
-          else if n <? origin + ph_size h then Err EOob
+          (* reader.cut(offset, file_size): the declared size must be available (bounds check of D8) *)
+          if n <? origin + ph_size h then Err EOob
+          else if kind_eqb (ph_kind h) KContainer then
+            match run_n n f (container_new_p origin) with
+            | Err e => Err e
+            | Ok ps =>                                   (* every pack is cut out of the container's region *)
+                if forallb (fun p : pack_ref => fst (snd p) + snd (snd p) <=? origin + ph_size h) ps
+                then Ok ps else Err EOob
+            end
           else Ok [(ph_uuid h, (origin, ph_size h))]
       end
   end.
@@ -55,13 +62,16 @@ Definition manifest_open_p (pos : N) : prog manifest :=
   pbind (RdBlock (pos + 64) 60 (fun b => lift (parse_all p_manifest_header b))) (fun mh =>
   if 70000 <? mh_count mh then Fail EFormat else
   pbind (read_infos_p (pos + (ph_check_pos h - mh_count mh * 256)) (N.to_nat (mh_count mh))) (fun infos =>
+  (* the manifest's own value store is loaded (and CRC-checked) when the manifest is opened *)
+  pbind (if (so_off (mh_vs mh) =? 0) && (so_size (mh_vs mh) =? 0) then Ret None
+         else pbind (vstore_at_p pos (mh_vs mh)) (fun s => Ret (Some s))) (fun _ =>
   let pis := map snd infos in
   let dirs := filter (fun p => kind_eqb (pi_kind p) KDirectory) pis in
   let others := filter (fun p => negb (kind_eqb (pi_kind p) KDirectory)) pis in
   match rev dirs with
   | [] => Fail EFormat                                  (* the Rust unwraps None here *)
   | d :: _ => Ret {| mf_pos := pos; mf_header := h; mf_mh := mh; mf_dir := d; mf_packs := others |}
-  end))).
+  end)))).
 
 (* a file system: the main file plus named sibling files *)
 Definition fsys := list (list N * list N).
@@ -91,23 +101,28 @@ Definition locate (main : list N) (packs : list pack_ref) (fs : fsys) (uuid loc 
 Record container := { ct_main : list N; ct_packs : list pack_ref; ct_manifest : manifest;
                       ct_dir_file : list N; ct_dir_pos : N }.
 
-Fixpoint first_manifest (f : list N) (n : N) (packs : list pack_ref) : res (option (N * N)) :=
+(* ContainerPack::get_manifest_pack_reader walks a HashMap: the order in which the pack headers are
+   looked at is not determined.  A pack whose header does not read makes the search fail when it is
+   met before the manifest ([lenient = false]: listing order, every pack before the manifest is met)
+   and is not seen at all when the manifest comes first ([lenient = true]).  Both are behaviours of
+   the implementation on a damaged file; on an undamaged file they coincide. *)
+Fixpoint first_manifest (lenient : bool) (f : list N) (n : N) (packs : list pack_ref) : res (option (N * N)) :=
   match packs with
   | [] => Ok None
   | (_, (pos, size)) :: rest =>
       match run_n n f (read_header_p pos) with
-      | Err e => Err e
-      | Ok h => if kind_eqb (ph_kind h) KManifest then Ok (Some (pos, size)) else first_manifest f n rest
+      | Err e => if lenient then first_manifest lenient f n rest else Err e
+      | Ok h => if kind_eqb (ph_kind h) KManifest then Ok (Some (pos, size)) else first_manifest lenient f n rest
       end
   end.
 
 (* Container::new *)
-Definition container_open (main : list N) (fs : fsys) : res container :=
+Definition container_open_gen (lenient : bool) (main : list N) (fs : fsys) : res container :=
   match open_as_container main with
   | Err e => Err e
   | Ok packs =>
       let n := lenN main in
-      match first_manifest main n packs with
+      match first_manifest lenient main n packs with
       | Err e => Err e
       | Ok None => Err EFormat
       | Ok (Some (mpos, _)) =>
@@ -123,6 +138,9 @@ Definition container_open (main : list N) (fs : fsys) : res container :=
           end
       end
   end.
+
+Definition container_open := container_open_gen false.
+Definition container_open_lenient := container_open_gen true.
 
 (* Container::get_bytes *)
 Inductive content_result :=
@@ -150,4 +168,26 @@ Definition get_content (c : container) (fs : fsys) (pack_id content_id : N) : re
 (* the directory pack of the container, decoded *)
 Definition container_dir_dump (c : container) : res (list (res index_dump)) :=
   dp_dump_at (ct_dir_file c) (ct_dir_pos c).
+Close Scope N_scope.
+
+(* for the damage oracle: the checksummed range of every pack of a file:
+   (position, check_info_pos, size of the check block data, kind byte, pack count for a manifest) *)
+Open Scope N_scope.
+Definition file_ranges (f : list N) : res (list (N * N * N * N * N)) :=
+  match open_as_container f with
+  | Err e => Err e
+  | Ok packs =>
+      let n := lenN f in
+      Ok (fold_right (fun (p : pack_ref) acc =>
+            let pos := fst (snd p) in
+            match run_n n f (read_header_p pos) with
+            | Err _ => acc
+            | Ok h =>
+                let cnt := if kind_eqb (ph_kind h) KManifest then
+                             match run_n n f (RdBlock (pos + 64) 60 (fun b => lift (parse_all p_manifest_header b))) with
+                             | Ok mh => mh_count mh | Err _ => 0 end
+                           else 0 in
+                (pos, ph_check_pos h, ph_check_size h, kind_byte (ph_kind h), cnt) :: acc
+            end) [] packs)
+  end.
 Close Scope N_scope.
